@@ -8,7 +8,7 @@ S=$(mktemp -d /tmp/mt.XXXXXX)
 trap 'git -C /repo worktree remove --force "$S/repo" >/dev/null 2>&1; rm -rf "$S"' EXIT
 git -C /repo worktree add --detach "$S/repo" HEAD >/dev/null 2>&1
 git -C "$S/repo" apply "$PATCH"
-rsync -a --exclude .work --exclude replays --exclude .git --exclude '.*.lock' /verif/ "$S/verif/"
+rsync -a --exclude .work --exclude replays --exclude .git --exclude ".*.lock" /verif/ "$S/verif/" || [ $? -eq 24 ]
 mkdir -p "$S/verif/replays"
 cd "$S/verif"
 export GOFLAGS=-mod=mod GOPROXY=off GOSUMDB=off GOTOOLCHAIN=local CGO_ENABLED=0
